@@ -376,6 +376,15 @@ def r_relink(ctx, rule='R-RELINK'):
                 elif c0[0] == 'binop' and c0[1] in ('Ne', 'Eq'):
                     differs = e[2] if c0[1] == 'Ne' else (not e[2])
                     a, bb = c0[2], c0[3]
+                    sa_, sb_ = strip(a), strip(bb)
+                    if sa_[0] == 'field' and sb_[0] == 'field' and sa_[2] == sb_[2] == 'item':
+                        ra = [r for r in rec if paths.mentions_call(a, r.bb)]
+                        rb = [r for r in rec if paths.mentions_call(bb, r.bb)]
+                        if bool(ra) != bool(rb):
+                            n += 1
+                            ctx.bad(rule, '%s/id-only-comparison#%d' % (f.path, n), '%s:%d' % (f.span['file'], paths.block_line(f, b)),
+                                    'in `%s` the new child is compared with the stored link by id only, ignoring the kind (line %d): a fresh tree node whose id equals the id of the item it replaces is taken for "unchanged" and the parent keeps pointing to the item' % (f.path, paths.block_line(f, b)))
+                            continue
                 else:
                     continue
                 ma = [r for r in rec if paths.mentions_call(a, r.bb)]
@@ -394,6 +403,28 @@ def r_relink(ctx, rule='R-RELINK'):
                           'a changed child id always leads to the parent being rewritten',
                           'in `%s` the parent split can be left untouched although the id of one child changed (line %d): the new child node becomes unreachable and the old link dangles' % (f.path, paths.block_line(f, b)))
     ctx.floor(rule, 'new-vs-old child comparisons', n, 2)
+
+
+# --------------------------------------------------------------------------- R-PUSH-SORTED
+def r_push_sorted(ctx, rule='R-PUSH-SORTED'):
+    """RoaringBitmap::push silently ignores a value that is not above the current maximum: it may only be fed from an
+    ascending source (iteration of a bitmap / of an LMDB prefix, select(0) loops) unless its boolean result is looked at"""
+    F = ctx.F
+    n = 0
+    for f in F.lib_fns():
+        if not f.path.startswith(('writer::', 'parallel::')):
+            continue
+        for c in f.calls():
+            if not c.callee.endswith('RoaringBitmap>::push'):
+                continue
+            n += 1
+            key = '%s/push#%d' % (f.path, n)
+            used = any(u['k'] != 'drop' for u in f.uses(c.dest['l'])) if not c.dest['p'] else True
+            v = c.arg_term(1)
+            ascending = any(s[0] == 'call' and (s[1].endswith('Iterator::next') or s[1].endswith('RoaringBitmap>::select')) for s in walk(v))
+            ctx.check(used or ascending, rule, key, c.loc(), 'pushed value comes from an ascending iteration' if ascending else 'push result is checked',
+                      '`RoaringBitmap::push` in `%s` is fed with %s, which is not taken from an ascending iteration, and its result is ignored: the value is silently dropped unless it is larger than everything already in the bitmap' % (f.path, show(v)[:80]))
+    ctx.floor(rule, 'RoaringBitmap::push sites', n, 3)
 
 
 # --------------------------------------------------------------------------- R-FRESH
